@@ -216,9 +216,44 @@ const KEYS: [&str; 5] = ["key", "cam1", "str\u{e9}am", "", "kkkkkkkkkkkkkkkkkkkk
 const APPS: [&str; 4] = ["live", "app", "live/", "a/b"];
 
 impl World {
+    /// Like `push`, but a message of several chunks is sometimes interrupted by a complete
+    /// other message on another chunk stream (RTMP allows the chunks of different chunk streams
+    /// to interleave; the interloper is a ping request, which every state answers).
+    fn push_interleaved(&mut self, ctx: &mut Ctx, m: &RefMsg, csid: u32, fmt: u8) {
+        let chunk = self.enc.chunk_size.max(1) as usize;
+        if m.payload.len() <= chunk || m.payload.len() / chunk > 5000 || !ctx.ch.chance("op.arg.interleave", 1, 5) {
+            self.push(m, csid, fmt);
+            return;
+        }
+        let total_chunks = (m.payload.len() + chunk - 1) / chunk;
+        let at = 1 + ctx.ch.draw("op.arg.interleaveat", (total_chunks - 1) as u64) as usize;
+        let mut out = Vec::new();
+        let mut cur = crate::refs::chunk::EncCursor { csid, msg: m.clone(), sent: 0, started: false };
+        self.enc.start(&mut out, &mut cur, fmt);
+        let mut sent_chunks = 1usize;
+        while !cur.done() {
+            if sent_chunks == at {
+                let ping = msg::user_control(m.ts, 6, ctx.ch.draw("op.arg.pingts", 1 << 32) as u32, None);
+                let icsid = if csid == 2 { 7 } else { 2 };
+                let f = self.enc.best_format(icsid, &ping);
+                self.enc.encode_message(&mut out, icsid, &ping, f);
+                ctx.probe("peer.interleaved_chunk_streams");
+                ctx.tr(|| format!("  peer: (ping request on csid {} between chunks {} and {} of the next message)", icsid, at, at + 1));
+            }
+            self.enc.cont(&mut out, &mut cur);
+            sent_chunks += 1;
+        }
+        self.push_raw(&out);
+    }
+
     fn push(&mut self, m: &RefMsg, csid: u32, fmt: u8) {
         let mut out = Vec::new();
         self.enc.encode_message(&mut out, csid, m, fmt);
+        self.push_raw(&out);
+    }
+
+    fn push_raw(&mut self, out: &[u8]) {
+        let out = out.to_vec();
         self.sent_bytes += out.len() as u64;
         self.link.push(&out);
         if self.history.len() < 4096 {
@@ -229,6 +264,17 @@ impl World {
         for c in self.hdr_tap.chunks.iter() {
             self.link.note_header(c.off, c.hdr_len);
         }
+    }
+
+    /// Message streams an answer concerning a request id the model does not hold as pending may
+    /// use: every stream this server created, stream 0, and the stream a request in limbo
+    /// arrived on.
+    fn loose_streams(&self, id: u32) -> Vec<u32> {
+        let mut v: Vec<u32> = self.srv.c.known_sids.iter().copied().chain(std::iter::once(0)).collect();
+        if let Some(sm::Pending::Publish { sid, .. }) | Some(sm::Pending::Play { sid, .. }) = self.model.limbo.get(&id) {
+            v.push(*sid);
+        }
+        v
     }
 
     fn pick_sid(&self, ctx: &mut Ctx) -> u32 {
@@ -511,7 +557,7 @@ impl World {
         let f = opts[ctx.ch.draw("op.arg.fmt", opts.len() as u64) as usize];
         ctx.tr(|| format!("  peer: {:?} [{}] csid {} fmt {}", classify(&m).kind(), m.brief(), csid, f));
         ctx.ev(110, m.type_id as u64, m.payload.len() as u64);
-        self.push(&m, csid, f);
+        self.push_interleaved(ctx, &m, csid, f);
         self.peer_msgs += 1;
     }
 
@@ -685,7 +731,11 @@ impl World {
                     Some(sm::Pending::Publish { sid, .. }) | Some(sm::Pending::Play { sid, .. }) => *sid,
                     _ => 0,
                 };
-                let r = self.srv.app_results(ctx, &|_| Want::OnStreams { type_ids: &[4, 18, 20], msids: vec![sid] }, |s| s.accept_request(id));
+                // an id the model does not hold as pending (never issued, spent, or in limbo after
+                // a failed accept): should the call succeed all the same, any stream this server
+                // created is as good as another -- the model, not the transcript, judges that
+                let msids: Vec<u32> = if self.model.pending.contains_key(&id) { vec![sid] } else { self.loose_streams(id) };
+                let r = self.srv.app_results(ctx, &|_| Want::OnStreams { type_ids: &[4, 18, 20], msids: msids.clone() }, |s| s.accept_request(id));
                 let (ok, outs) = match &r {
                     Ok(out) => (true, tracked(out)),
                     Err(_) => (false, Some(Vec::new())),
@@ -726,7 +776,8 @@ impl World {
                     Some(sm::Pending::Publish { sid, .. }) | Some(sm::Pending::Play { sid, .. }) => *sid,
                     _ => 0,
                 };
-                let r = self.srv.app_results(ctx, &|_| Want::OnStreams { type_ids: &[20], msids: vec![sid] }, |s| s.reject_request(id, "NetConnection.Connect.Rejected", "no"));
+                let msids: Vec<u32> = if self.model.pending.contains_key(&id) { vec![sid] } else { self.loose_streams(id) };
+                let r = self.srv.app_results(ctx, &|_| Want::OnStreams { type_ids: &[20], msids: msids.clone() }, |s| s.reject_request(id, "NetConnection.Connect.Rejected", "no"));
                 let (ok, outs) = match &r {
                     Ok(out) => (true, tracked(out)),
                     Err(_) => (false, Some(Vec::new())),
